@@ -18,7 +18,7 @@ ASSUMPTIONS = [
     "the parent link of the copy's root is not constrained by the statement",
     "sharing of immutable values (strings) between copy and original is not 'mutable state'",
 ]
-REQUIRED = ["copies_made_after_reseeding_the_global_generator", "trees_with_domain_attribute_combinations", "cross_session_documents", "copies", "edits_on_copy", "edits_on_original", "aliasing_checks", "inner_node_copies", "second_generation_copies", "trees_with_a_default_namespace", "nodes_in_one_copy", "trees_with_unregistered_nodes", "deep_chain_copies", "trees_with_stale_parent_links", "wide_trees", "trees_with_repeated_id_strings", "original_registry_entries_rechecked", "copies_with_shared_nsmap_in_original"]
+REQUIRED = ["trees_copied_after_the_registry_was_replaced", "copies_made_after_reseeding_the_global_generator", "trees_with_domain_attribute_combinations", "cross_session_documents", "copies", "edits_on_copy", "edits_on_original", "aliasing_checks", "inner_node_copies", "second_generation_copies", "trees_with_a_default_namespace", "nodes_in_one_copy", "trees_with_unregistered_nodes", "deep_chain_copies", "trees_with_stale_parent_links", "wide_trees", "trees_with_repeated_id_strings", "original_registry_entries_rechecked", "copies_with_shared_nsmap_in_original"]
 EXHAUSTIVE = {"quick": False, "thorough": False}
 
 EDITS = ("content", "tail", "prefix", "name", "attr_add", "attr_overwrite", "attr_remove", "extras_add", "ns_declare", "ns_redeclare",
@@ -173,7 +173,26 @@ def independence_sweep(ctx, plain, src_index, exhaustive, share=False):
         emlkit.discard(t, c)
 
 
+_REPLACED = [False]
+
+
 def one_tree(ctx, size, i):
+    if i % 11 == 6:
+        # the application started a new registry (Node.store = {} for a new document, a test fixture that swaps it): whatever the class
+        # attribute names NOW is the registry
+        kept = Node.store
+        Node.store = {}
+        _REPLACED[0] = True
+        ctx.count("trees_copied_after_the_registry_was_replaced")
+        try:
+            return _one_tree(ctx, size, i)
+        finally:
+            Node.store = kept
+            _REPLACED[0] = False
+    return _one_tree(ctx, size, i)
+
+
+def _one_tree(ctx, size, i):
     rng = ctx.rng
     # (one tree in four holds nodes that carry the same id string - the same saved model loaded twice and grafted together, or
     # caller-assigned ids: they are still distinct nodes, each of which gets its own copy with its own fresh id)
@@ -236,7 +255,7 @@ def one_tree(ctx, size, i):
         ctx.evaluated()
         if src_index:
             ctx.count("inner_node_copies")
-        wit = lambda: {"tree": plain, "copied_index": src_index, "same_ids": same_ids}
+        wit = lambda: {"tree": plain, "copied_index": src_index, "same_ids": same_ids, "registry_replaced": _REPLACED[0]}
         d = before.diff()
         if d:
             ctx.violation("copy-modifies-original", f"copy() changed the original: {d[0]}", wit())
@@ -414,6 +433,15 @@ def replay(ctx, witness):
         ctx.distinct(1)
         ctx.distinct(2)
         return
+    if witness.get("registry_replaced") and not _REPLACED[0]:
+        kept = Node.store
+        Node.store = {}
+        _REPLACED[0] = True
+        try:
+            return replay(ctx, witness)
+        finally:
+            Node.store = kept
+            _REPLACED[0] = False
     plain, src_index = witness["tree"], witness.get("copied_index", 0)
     t = snapshot.from_plain(Node, plain, fresh_ids=not witness.get("same_ids"))
     if witness.get("share"):
